@@ -40,6 +40,12 @@ Proof.
   replace (gmul (gmul c u) (gconj u)) with (gmul c (gnorm u, 0%Z)) in E by (unfold gnorm; gring). rewrite Hu in E.
   replace (gmul c (1%Z, 0%Z)) with c in E by gring. exact E.
 Qed.
+Lemma unit_cancel2 u a b : gnorm u = 1%Z -> gmul a u = gmul b u -> a = b.
+Proof.
+  intros Hu H. assert (Ea : a = gmul (gmul a u) (gconj u)) by (transitivity (gmul a (gnorm u, 0%Z)); [rewrite Hu; gring|unfold gnorm; gring]).
+  assert (Eb : b = gmul (gmul b u) (gconj u)) by (transitivity (gmul b (gnorm u, 0%Z)); [rewrite Hu; gring|unfold gnorm; gring]).
+  rewrite Ea, Eb, H. reflexivity.
+Qed.
 Lemma two_cancel c : gmul (2, 0)%Z c = g0 -> c = g0.
 Proof. intros H. destruct c as [a b]. unfold gmul, g0 in H. assert (H1 := f_equal fst H). assert (H2 := f_equal snd H). cbn [fst snd] in H1, H2. unfold g0; f_equal; lia. Qed.
 
@@ -93,3 +99,180 @@ Proof.
     destruct c1, c2, p1, p2; unfold gmul, gadd, gneg, g0 in *; cbn [fst snd] in *; lia.
 Qed.
 End Inv.
+
+Section Complete.
+Variables (n : nat) (G : list pstr) (m : lin).
+Hypothesis HG : forall h, In h G -> length h = n.
+Hypothesis Hne : G <> [].
+Hypothesis Hm : all_n (2 * n) m.
+Hypothesis Hinv : forall g, In g G -> Comm n (gen2 n g) m.
+
+(* (i) no weight on A (x) B unless A.B commutes with every member *)
+Lemma coef_zero_noncomm A B g : length A = n -> length B = n -> In g G -> anti_l g (smul A B) = true -> coef m (A ++ B) = g0.
+Proof.
+  intros LA LB Hg Ha. assert (Lg := HG g Hg). rewrite anti_l_sym, anti_l_smul_l, !(anti_l_sym _ g) in Ha by congruence.
+  destruct (anti_l g A) eqn:EA, (anti_l g B) eqn:EB; try discriminate.
+  - (* g anticommutes with A only: the equation at (g.A, B) *)
+    assert (E := inv_eq n g m Lg Hm (Hinv g Hg) (smul g A) B ltac:(rewrite smul_length; congruence) LB).
+    rewrite anti_l_sym, anti_l_smul_l, anti_l_self, (anti_l_sym A g), EA, EB in E by congruence. cbn [xorb] in E.
+    rewrite smul_cancel in E by congruence. replace (gadd (gmul (coef m (A ++ B)) (phase g A)) g0) with (gmul (coef m (A ++ B)) (phase g A)) in E by gring.
+    apply (unit_cancel (phase g A)); [apply phase_unit|exact E].
+  - assert (E := inv_eq n g m Lg Hm (Hinv g Hg) A (smul g B) LA ltac:(rewrite smul_length; congruence)).
+    rewrite (anti_l_sym g (smul g B)), anti_l_smul_l, anti_l_self, (anti_l_sym B g), EA, EB in E by congruence. cbn [xorb] in E.
+    rewrite smul_cancel in E by congruence. replace (gadd g0 (gmul (coef m (A ++ B)) (phase g B))) with (gmul (coef m (A ++ B)) (phase g B)) in E by gring.
+    apply (unit_cancel (phase g B)); [apply phase_unit|exact E].
+Qed.
+
+(* (ii) along an edge S -- g.S of the commutator graph the normalised coefficient is constant *)
+Variable L : pstr.
+Hypothesis LL : length L = n.
+Hypothesis HLc : forall g, In g G -> anti_l g L = false.
+Definition lam (S : pstr) : gi := gmul (gconj (phase L S)) (coef m (S ++ smul L S)).
+Lemma lam_edge g S : In g G -> length S = n -> anti_l g S = true -> lam (smul g S) = lam S.
+Proof.
+  intros Hg LS Ha. assert (Lg := HG g Hg). assert (HgL := HLc g Hg).
+  set (S' := smul g S). assert (LS' : length S' = n) by (unfold S'; rewrite smul_length; congruence).
+  assert (LLS : length (smul L S) = n) by (rewrite smul_length; congruence).
+  assert (E := inv_eq n g m Lg Hm (Hinv g Hg) S' (smul L S) LS' LLS).
+  assert (A1 : anti_l g S' = true) by (unfold S'; rewrite anti_l_sym, anti_l_smul_l, anti_l_self, (anti_l_sym S g), Ha by congruence; reflexivity).
+  assert (A2 : anti_l g (smul L S) = true) by (rewrite anti_l_sym, anti_l_smul_l, !(anti_l_sym _ g), HgL, Ha by congruence; reflexivity).
+  rewrite A1, A2 in E. unfold S' in E at 1 2. rewrite smul_cancel in E by congruence.
+  assert (E3 : smul g (smul L S) = smul L S') by (unfold S'; symmetry; apply smul_swap; congruence). rewrite E3 in E.
+  (* E : c(S|LS) phi(g,S) + c(S'|LS') phi(g, L S') = 0 ; phase_ii : phi(L,S') phi(g, L S') = - phi(L,S) phi(g,S) *)
+  assert (P2 := phase_ii L g S ltac:(congruence) ltac:(congruence)). rewrite Ha, HgL in P2. cbn [sg] in P2. fold S' in P2.
+  unfold lam. fold S'.
+  assert (U1 := phase_unit L S). assert (U2 := phase_unit L S'). assert (U3 := phase_unit g S). assert (U4 := phase_unit g (smul L S')).
+  set (c := coef m (S ++ smul L S)) in *. set (c' := coef m (S' ++ smul L S')) in *.
+  set (pLS := phase L S) in *. set (pLS' := phase L S') in *. set (pgS := phase g S) in *. set (pgLS' := phase g (smul L S')) in *.
+  assert (E' : gmul c' pgLS' = gneg (gmul c pgS)).
+  { apply gi_eq; [assert (F := f_equal fst E)|assert (F := f_equal snd E)]; destruct c, c', pgS, pgLS'; unfold gmul, gadd, gneg, g0 in *; cbn [fst snd] in *; lia. }
+  assert (H1 : gmul c' (gmul pLS' pgLS') = gneg (gmul (gmul c pgS) pLS')).
+  { transitivity (gmul (gmul c' pgLS') pLS'); [gring|]. rewrite E'. gring. }
+  rewrite P2 in H1.
+  assert (H2 : gmul (gmul c' pLS) pgS = gmul (gmul c pLS') pgS).
+  { transitivity (gneg (gmul c' (gmul (gmul (gneg g1) g1) (gmul pLS pgS)))); [gring|]. rewrite H1. gring. }
+  apply (unit_cancel2 pgS _ _ U3) in H2.
+  transitivity (gmul (gmul (gconj pLS') (gconj pLS)) (gmul c' pLS)).
+  - transitivity (gmul (gmul (gconj pLS') c') (gmul (gconj pLS) pLS)); [rewrite gconj_norm, U1; gring|gring].
+  - rewrite H2. transitivity (gmul (gmul (gconj pLS) c) (gmul (gconj pLS') pLS')); [gring|rewrite gconj_norm, U2; gring].
+Qed.
+End Complete.
+
+(* (iii) constant on every component of the model's commutator graph *)
+Lemma lam_const n G m L C : (forall h, In h G -> length h = n) -> all_n (2 * n) m -> (forall g, In g G -> Comm n (gen2 n g) m) ->
+  length L = n -> (forall g, In g G -> anti_l g L = false) -> In C (commutator_components n G) ->
+  forall x y, In x C -> In y C -> lam m L x = lam m L y.
+Proof.
+  intros HG Hm Hinv LL HLc HC. unfold commutator_components, comps in HC.
+  set (adj := fun p q => anti_l p q && memG (smul p q) G) in *.
+  destruct (components_spec pstr adj (fun x => length x = n) (length (all_strs n)) (all_strs n) (le_n _)) as [_ [F _]].
+  { intros x Hx. apply all_strs_In. exact Hx. }
+  rewrite Forall_forall in F.
+  assert (K : forall seed x, conn pstr adj (fun x => length x = n) seed x -> lam m L x = lam m L seed).
+  { intros seed x0 Hc. induction Hc as [x Hx|x y z Hxy IH Hz Hadj]; [reflexivity|]. rewrite <- IH.
+    assert (Ly : length y = n) by (destruct Hxy; assumption).
+    assert (Ha : anti_l y z = true /\ In (smul y z) G).
+    { destruct Hadj as [Hadj|Hadj]; unfold adj in Hadj; apply andb_true_iff in Hadj; destruct Hadj as [H1 H2]; apply memG_In in H2.
+      - split; assumption.
+      - split; [rewrite anti_l_sym; exact H1|rewrite smul_comm; exact H2]. }
+    destruct Ha as [Ha Hg]. set (g := smul y z) in *.
+    replace z with (smul g y) by (unfold g; rewrite (smul_comm y z); apply smul_self_cancel; congruence).
+    apply (lam_edge n G m HG Hm Hinv L LL HLc g y Hg Ly).
+    unfold g. rewrite anti_l_smul_l by congruence. rewrite anti_l_self, (anti_l_sym z y), Ha. reflexivity. }
+  destruct (F C HC) as [seed [Hseed Hconn]].
+  intros x y Hx Hy. rewrite (K seed x (Hconn x Hx)), (K seed y (Hconn y Hy)). reflexivity.
+Qed.
+
+Lemma proj_scale q s a : proj_num q (lscale s a) = gmul s (proj_num q a).
+Proof. rewrite !proj_num_sum, <- gsum_scale. apply gsum_ext. intros t _. rewrite coef_scale. gring. Qed.
+Lemma nat_gi_cancel k x : (0 < k)%nat -> gmul (nat_gi k) x = g0 -> x = g0.
+Proof.
+  intros Hk H. destruct x as [a b]. unfold gmul, nat_gi, g0 in H. cbn [fst snd] in H.
+  assert (H1 := f_equal fst H). assert (H2 := f_equal snd H). cbn [fst snd] in H1, H2. assert (Hz : (0 < Z.of_nat k)%Z) by lia. unfold g0. f_equal; nia.
+Qed.
+
+(* an invariant combination orthogonal to every member of the full basis vanishes *)
+Theorem invariant_orthogonal_zero n G r : (forall h, In h G -> length h = n) -> G <> [] -> all_n (2 * n) r ->
+  (forall g, In g G -> Comm n (gen2 n g) r) -> (forall q, In q (full_basis n G) -> proj_num q r = g0) ->
+  forall T, length T = (2 * n)%nat -> coef r T = g0.
+Proof.
+  intros HG Hne Hr Hinv Hproj T LT.
+  set (A := firstn n T). set (B := skipn n T).
+  assert (ET : T = A ++ B) by (symmetry; apply firstn_skipn).
+  assert (LA : length A = n) by (unfold A; rewrite firstn_length; lia).
+  assert (LB : length B = n) by (unfold B; rewrite skipn_length; lia).
+  set (L := smul A B). assert (LL : length L = n) by (unfold L; rewrite smul_length; congruence).
+  assert (EB : smul L A = B) by (unfold L; rewrite (smul_comm A B); apply smul_self_cancel; congruence).
+  rewrite ET. destruct (existsb (fun g => anti_l g L) G) eqn:EX.
+  - apply existsb_exists in EX. destruct EX as [g [Hg Ha]]. apply (coef_zero_noncomm n G r HG Hr Hinv A B g LA LB Hg Ha).
+  - assert (HLc : forall g, In g G -> anti_l g L = false).
+    { intros g Hg. destruct (anti_l g L) eqn:E; [|reflexivity]. exfalso. assert (existsb (fun g => anti_l g L) G = true); [|congruence].
+      apply existsb_exists. exists g. split; assumption. }
+    destruct (commutants_spec n G Hne) as [Lspec _]. assert (HLin : In L (commutants n G)) by (apply Lspec; split; assumption).
+    (* the component of A *)
+    unfold commutator_components, comps in *.
+    destruct (components_spec pstr (fun p q => anti_l p q && memG (smul p q) G) (fun x => length x = n) (length (all_strs n)) (all_strs n) (le_n _)) as [P _].
+    { intros x Hx. apply all_strs_In. exact Hx. }
+    assert (HAin : In A (concat (commutator_components n G))).
+    { unfold commutator_components, comps. apply (Permutation_in A (Permutation_sym P)). apply all_strs_In. exact LA. }
+    apply in_concat in HAin. destruct HAin as [C [HC HAC]].
+    destruct (component_props n G C HG HC) as [Hlen [Hnd _]].
+    set (q := quadratic C L).
+    assert (Uq := quadratic_unitary n C L Hlen Hnd). fold q in Uq.
+    assert (Hq : In q (full_basis n G)).
+    { unfold full_basis. apply filter_In. split; [apply in_flat_map; exists C; split; [exact HC|apply in_map; exact HLin]|].
+      destruct (lis_zero q) eqn:EZ; [|reflexivity]. exfalso.
+      assert (Hqn : all_n (2 * n) q) by (apply quadratic_all_n; assumption).
+      apply (zero_iff (2 * n) q Hqn) in EZ.
+      assert (Z := independence (2 * n) q Hqn EZ (A ++ smul L A) ltac:(rewrite app_length, smul_length by congruence; lia)).
+      destruct Uq as [U1 U2]. assert (Ht : In (phase L A, A ++ smul L A) q) by (unfold q, quadratic; apply in_map_iff; exists A; split; [reflexivity|exact HAC]).
+      assert (U2t := U2 _ Ht). cbn [fst snd] in U2t. rewrite U2t in Z. assert (N := phase_unit L A). rewrite Z in N. discriminate. }
+    assert (PZ := Hproj q Hq). rewrite proj_num_sum in PZ. unfold q, quadratic in PZ. rewrite gsum_map in PZ. cbn [fst snd] in PZ.
+    rewrite (gsum_ext _ _ (fun _ => lam r L A)) in PZ.
+    + rewrite gsum_const in PZ. fold (nat_gi (length C)) in PZ.
+      assert (Cpos : (0 < length C)%nat) by (destruct C; [destruct HAC|cbn; lia]).
+      apply (nat_gi_cancel _ _ Cpos) in PZ. unfold lam in PZ. rewrite EB in PZ.
+      apply (unit_cancel (gconj (phase L A))); [|rewrite <- PZ; gring].
+      assert (N := phase_unit L A). destruct (phase L A) as [a b]. unfold gnorm, gconj in *. cbn [fst snd] in *. lia.
+    + intros S HS. change (gmul (gconj (phase L S)) (coef r (S ++ smul L S))) with (lam r L S).
+      apply (lam_const n G r L C HG Hr Hinv LL HLc HC S A HS HAC).
+Qed.
+
+Lemma numer_twirl_all_n n G m : (forall h, In h G -> length h = n) ->
+  all_n (2 * n) (numer (common_den (full_basis n G)) (twirl n G m)).
+Proof.
+  intros HG. rewrite twirl_is_twirlB, numer_twirl. intros t Ht. apply in_flat_map in Ht. destruct Ht as [q [Hq Ht]].
+  unfold hterm in Ht. destruct (gi_eqb (proj_num q m) g0); [destruct Ht|]. revert t Ht. apply all_n_scale.
+  unfold full_basis in Hq. apply filter_In in Hq. destruct Hq as [Hq _].
+  apply in_flat_map in Hq. destruct Hq as [C [HC Hq]]. apply in_map_iff in Hq. destruct Hq as [L [<- HL]].
+  destruct (component_props n G C HG HC) as [Hlen _]. apply quadratic_all_n; [exact Hlen|].
+  unfold commutants in HL. destruct G as [|g0' G']; [destruct HL|]. apply fold_filter in HL. destruct HL as [HL _]. apply all_strs_In. exact HL.
+Qed.
+
+(* completeness: every combination commuting with every g (x) 1 + 1 (x) g is fixed by the twirl (coefficient by
+   coefficient, denominators cleared), hence is a combination of the quadratic symmetries *)
+Theorem twirl_fixes_invariants n G m : (forall h, In h G -> length h = n) -> G <> [] -> all_n (2 * n) m ->
+  (forall g, In g G -> Comm n (gen2 n g) m) ->
+  forall T, length T = (2 * n)%nat ->
+  coef (numer (common_den (full_basis n G)) (twirl n G m)) T = gmul (nat_gi (common_den (full_basis n G))) (coef m T).
+Proof.
+  intros HG Hne Hm Hinv T LT. set (D := common_den (full_basis n G)).
+  set (r := lscale (nat_gi D) m ++ lscale (gneg g1) (numer D (twirl n G m))).
+  assert (Hr : all_n (2 * n) r).
+  { intros t Ht. unfold r in Ht. apply in_app_or in Ht. destruct Ht as [Ht|Ht]; revert t Ht; apply all_n_scale; [exact Hm|apply numer_twirl_all_n; exact HG]. }
+  assert (Cr : forall g, In g G -> Comm n (gen2 n g) r).
+  { intros g Hg. unfold r. apply Comm_app; apply Comm_scale; [apply Hinv; exact Hg|apply model_twirl_invariant; assumption]. }
+  assert (Pr : forall q, In q (full_basis n G) -> proj_num q r = g0).
+  { intros q Hq. unfold r. rewrite proj_app, !proj_scale. unfold D. rewrite (model_twirl_projects n G HG Hne m q Hq). gring. }
+  assert (Z := invariant_orthogonal_zero n G r HG Hne Hr Cr Pr T LT). unfold r in Z. rewrite coef_app, !coef_scale in Z.
+  apply gi_eq; [assert (F := f_equal fst Z)|assert (F := f_equal snd Z)];
+    destruct (coef m T), (coef (numer D (twirl n G m)) T); unfold gmul, gadd, gneg, g0, g1, nat_gi in *; cbn [fst snd] in *; lia.
+Qed.
+Theorem twirl_fixes_invariants_matrix n G m : (forall h, In h G -> length h = n) -> G <> [] -> all_n (2 * n) m ->
+  (forall g, In g G -> Comm n (gen2 n g) m) ->
+  meq (2 * n) (denote (numer (common_den (full_basis n G)) (twirl n G m))) (mscale (nat_gi (common_den (full_basis n G))) (denote m)).
+Proof.
+  intros HG Hne Hm Hinv r c Hr Hc. unfold mscale. rewrite <- denote_scale.
+  apply (denote_eq_iff_coef (2 * n)); [apply numer_twirl_all_n; exact HG|apply all_n_scale; exact Hm| |exact Hr|exact Hc].
+  intros p Lp. rewrite coef_scale. apply twirl_fixes_invariants; assumption.
+Qed.
